@@ -118,3 +118,54 @@ apply_row = Fn(IM + 'apply_along_row', level='L0', requires=APPLY_REQ, ensures=A
                                        '{ if j < t_ { assert(at2(self.data.v@, s0.ncols as int, row as int, j) == at2(pre_d, s0.ncols as int, row as int, j)); } else { assert(at2(pre_d, s0.ncols as int, row as int, j) == at2(s0.data.v@, s0.ncols as int, row as int, j)); } }')}})
 UNITS.append(Unit('C15_apply_row', ('C15', 'C12'), [apply_row], use=core.core_stubs(), types=core.TYPES, type_spec=core.TYPE_SPEC, spec=c15.SPEC, preludes=PRE, broadcast=BC, level='L0', rlimit=100,
                   notes='apply_along_row: every element of the chosen row is replaced by the closure applied to it, every other element and the shape are unchanged'))
+
+# ---------------------------------------------------------------- exact-within-epsilon equality (PartialEq) and the Matrix-level comparisons
+EQ_SPEC = r'''
+/// element-wise equality within machine epsilon (the PartialEq impls of Vector and Matrix)
+pub open spec fn eq_eps(x: Seq<f64>, y: Seq<f64>) -> bool {
+    x.len() == y.len() && forall|i: int| 0 <= i < x.len() ==> r_abs(rv(#[trigger] x[i]) - rv(y[i])) <= r_eps()
+}
+'''
+VEQ = VEC + '{impl PartialEq<Vector> for Vector}::'
+MEQ = MAT + '{impl PartialEq<Matrix> for Matrix}::'
+veq = Fn(VEQ + 'eq', ret='r', level='L1', inherent=True, ensures=['C15.vec_eq.def:: r == eq_eps(self.v@, other.v@)'],
+         loops={1: {'iter_name': 'it', 'invariant': ['it.iter.end == self.v@.len()', 'self.v@.len() == other.v@.len()',
+                                                     'C15.vec_eq.prefix:: forall|q: int| 0 <= q < i ==> r_abs(rv(#[trigger] self.v@[q]) - rv(other.v@[q])) <= r_eps()']}},
+         hints=[('return false;\n                        }\n                    }', 'replace',
+                 'proof { assert(!eq_eps(self.v@, other.v@)) by { assert(r_abs(rv(self.v@[i as int]) - rv(other.v@[i as int])) > r_eps()); } } return false;\n }\n }')])
+SAME_SHAPE = 'self.nrows == other.nrows && self.ncols == other.ncols'
+SHAPE_HINT = ('if self.shape() != other.shape()', 'replace',
+              'if ({ let a_ = self.shape(); let b_ = other.shape(); let t_ = a_ != b_; proof { if a_[0] == b_[0] && a_[1] == b_[1] { assert(a_ =~= b_); } '
+              'assert(a_@[0] == self.nrows && a_@[1] == self.ncols && b_@[0] == other.nrows && b_@[1] == other.ncols); } t_ })')
+mclose = Fn(IM + 'close_to', ret='r', level='L1',
+            ensures=['C15.mat_close_to.def:: r == (%s && close_def(self.data.v@, other.data.v@, tol))' % SAME_SHAPE],
+            hints=[SHAPE_HINT])
+meq = Fn(MEQ + 'eq', ret='r', level='L1', inherent=True,
+         ensures=['C15.mat_eq.def:: r == (%s && eq_eps(self.data.v@, other.data.v@))' % SAME_SHAPE],
+         hints=[SHAPE_HINT])
+UNITS.append(Unit('C15_equality', 'C15', [veq, mclose, meq], use=core.core_stubs() + [vclose], types=core.TYPES, type_spec=core.TYPE_SPEC,
+                  spec=c15.SPEC + CLOSE_SPEC + EQ_SPEC, preludes=PRE, broadcast=BC, level='L1',
+                  notes='Vector == Vector: same length and every pair within machine epsilon; Matrix::close_to and Matrix == Matrix: same shape (both dimensions) and the Vector-level comparison of the data'))
+
+# ---------------------------------------------------------------- apply_along_col
+APPLYC_REQ = ['C15.apply_along_col.pre:: wf(*old(self)) && col < old(self).ncols && forall|x: f64| f.requires((x,))']
+APPLYC_ENS = ['C15.apply_along_col.shape:: final(self).nrows == old(self).nrows && final(self).ncols == old(self).ncols && wf(*final(self))',
+              'C15.apply_along_col.col:: forall|i: int| 0 <= i < old(self).nrows ==> f.ensures((at2(old(self).data.v@, old(self).ncols as int, i, col as int),), #[trigger] at2(final(self).data.v@, old(self).ncols as int, i, col as int))',
+              'C15.apply_along_col.frame:: forall|r: int, c: int| 0 <= r < old(self).nrows && 0 <= c < old(self).ncols && c != col ==> #[trigger] at2(final(self).data.v@, old(self).ncols as int, r, c) == at2(old(self).data.v@, old(self).ncols as int, r, c)']
+apply_col = Fn(IM + 'apply_along_col', level='L0', requires=APPLYC_REQ, ensures=APPLYC_ENS,
+               rewrites=[('for row in self { row[col] = f(row[col]); }', 'for i_ in 0..self.nrows { let v_ = self[[i_, col]]; self[[i_, col]] = f(v_); }',
+                          'R38: `for row in <&mut Matrix>` visits the rows in order - the crate\'s IntoIterator for &mut Matrix is `self.data.chunks_mut(self.ncols)` (fingerprint-checked), whose i-th chunk of a '
+                          'well-formed matrix is `self[i]`; element `col` of that row is `self[[i, col]]` (both denote data[i*ncols + col])')],
+               pre_body='let ghost s0 = *self;',
+               loops={1: {'iter_name': 'tt', 'invariant': ['tt.iter.end == s0.nrows', 'self.nrows == s0.nrows && self.ncols == s0.ncols && wf(*self) && wf(s0)', 'col < s0.ncols', 'forall|x: f64| f.requires((x,))',
+                                        'C15.apply_along_col.done:: forall|i: int| 0 <= i < i_ ==> f.ensures((at2(s0.data.v@, s0.ncols as int, i, col as int),), #[trigger] at2(self.data.v@, s0.ncols as int, i, col as int))',
+                                        'C15.apply_along_col.todo:: forall|r: int, c: int| 0 <= r < s0.nrows && 0 <= c < s0.ncols && (c != col || r >= i_) ==> #[trigger] at2(self.data.v@, s0.ncols as int, r, c) == at2(s0.data.v@, s0.ncols as int, r, c)'],
+                          'body_ghost': 'let ghost pre_d = self.data.v@;',
+                          'body_start': 'lemma_idx(i_ as int, col as int, s0.nrows as int, s0.ncols as int);',
+                          'body_end': ('assert forall|r: int, c: int| 0 <= r < s0.nrows && 0 <= c < s0.ncols && !(r == i_ && c == col) implies #[trigger] at2(self.data.v@, s0.ncols as int, r, c) == at2(pre_d, s0.ncols as int, r, c) by '
+                                       '{ lemma_idx(r, c, s0.nrows as int, s0.ncols as int); if r * s0.ncols + c == i_ * s0.ncols + col { lemma_idx_inj(r, c, i_ as int, col as int, s0.ncols as int); } } '
+                                       'assert forall|i: int| 0 <= i < i_ + 1 implies f.ensures((at2(s0.data.v@, s0.ncols as int, i, col as int),), #[trigger] at2(self.data.v@, s0.ncols as int, i, col as int)) by '
+                                       '{ if i < i_ { assert(at2(self.data.v@, s0.ncols as int, i, col as int) == at2(pre_d, s0.ncols as int, i, col as int)); } else { assert(at2(pre_d, s0.ncols as int, i, col as int) == at2(s0.data.v@, s0.ncols as int, i, col as int)); } }')}})
+UNITS.append(Unit('C15_apply_col', 'C15', [apply_col], use=core.core_stubs(), types=core.TYPES, type_spec=core.TYPE_SPEC, spec=c15.SPEC, preludes=PRE, broadcast=BC, level='L0', rlimit=100,
+                  fingerprints=[(MAT + "{impl<'a> IntoIterator for &'a mut Matrix}::into_iter", '{ self.data.chunks_mut(self.ncols) }')],
+                  notes='apply_along_col: every element of the chosen column is replaced by the closure applied to it, every other element and the shape are unchanged (row iteration read as in-order rows, rule R38)'))
